@@ -200,9 +200,35 @@ func runProperty(id, tier string, seed int, reg Registry, only string, workers i
 		fatal(2, "overlay: %v", err)
 	}
 	tl := time.Now()
-	in, _, err := symex.Load(symex.LoadConfig{RepoDir: repoDir, Module: module, Patterns: []string{"./..."}, Overlay: ov, Known: knownIDs})
-	if err != nil {
-		fatal(2, "cannot load /repo with harness overlay (does the tree still compile?): %v", err)
+	var in *symex.Interp
+	dropped := map[string]string{} // harness file -> first error
+	for attempt := 0; ; attempt++ {
+		in, _, err = symex.Load(symex.LoadConfig{RepoDir: repoDir, Module: module, Patterns: []string{"./..."}, Overlay: ov, Known: knownIDs})
+		if err == nil {
+			break
+		}
+		// A harness file that no longer compiles against the edited tree is
+		// dropped (its harnesses become INCONCLUSIVE) so that the others still run.
+		progress := false
+		for _, line := range strings.Split(err.Error(), "\n") {
+			line = strings.TrimSpace(line)
+			i := strings.Index(line, ".go:")
+			if i < 0 {
+				continue
+			}
+			file := line[:i+3]
+			base := filepath.Base(file)
+			if _, isOv := ov[file]; isOv && strings.HasPrefix(base, "zz_vp_") && base != "zz_vp_rt.go" && base != "zz_vp_common.go" {
+				if _, done := dropped[file]; !done {
+					dropped[file] = line
+					delete(ov, file)
+					progress = true
+				}
+			}
+		}
+		if !progress || attempt > 8 {
+			fatal(2, "cannot load /repo with harness overlay (does the tree still compile?): %v", err)
+		}
 	}
 	loadDur := time.Since(tl)
 
@@ -221,7 +247,11 @@ func runProperty(id, tier string, seed int, reg Registry, only string, workers i
 		}
 		fn := in.FindFunc(h.Pkg, h.Func)
 		if fn == nil {
-			inconclusive = append(inconclusive, fmt.Sprintf("%s: harness function %s.%s not found", h.Name, h.Pkg, h.Func))
+			why := ""
+			for f, e := range dropped {
+				why += fmt.Sprintf(" [dropped %s: %s]", filepath.Base(f), e)
+			}
+			inconclusive = append(inconclusive, fmt.Sprintf("%s: harness function %s.%s not available (harness file does not compile against this tree?)%s", h.Name, h.Pkg, h.Func, why))
 			continue
 		}
 		cfg := symex.ExploreConfig{Entry: fn, Workers: workers, MaxPaths: tc.MaxPaths, MaxSteps: h.MaxSteps,
